@@ -5,6 +5,6 @@ IDS=${@:-C01 C02 C03 C04 C05 C06 C07 C08 C09 C10 C11 C12 C13 C14 C15 C16 C17 C18
 cd "$(dirname "$0")/.."; mkdir -p .work/sweep
 for P in $IDS; do
   S=$(date +%s)
-  VERIF_SEED=$SEED ./check $P --tier $TIER > .work/sweep/${P}_${SEED}_${TIER}.log 2>&1; RC=$?
+  VERIF_EVIDENCE_DIR=${SWEEP_EVIDENCE:-$PWD/evidence} VERIF_SEED=$SEED ./check $P --tier $TIER > .work/sweep/${P}_${SEED}_${TIER}.log 2>&1; RC=$?
   echo "$P seed=$SEED tier=$TIER exit=$RC wall=$(( $(date +%s) - S ))s $(grep -c '^VIOLATION' .work/sweep/${P}_${SEED}_${TIER}.log) violations"
 done
